@@ -76,7 +76,7 @@ func (e *Engine) callFunction(st *State, fr *Frame, callee *ssa.Function, bindin
 	if inRepo {
 		ct := e.contractFor(callee)
 		if ct != nil && !ct.Inline && !(len(st.frames) == 1 && false) {
-			res := e.callByContract(st, fr, callee, ct, args, resT, pos, ins)
+			res := e.callByContract(st, fr, callee, ct, args, bindings, resT, pos, ins)
 			setRes(res)
 			return
 		}
@@ -457,13 +457,25 @@ func (e *Engine) bindParams(env *Env, fn *ssa.Function, args []Val) {
 	}
 }
 
-func (e *Engine) callByContract(st *State, fr *Frame, callee *ssa.Function, ct *Contract, args []Val, resT types.Type, pos token.Pos, ins ssa.Instruction) Val {
+func (e *Engine) callByContract(st *State, fr *Frame, callee *ssa.Function, ct *Contract, args []Val, bindings []Val, resT types.Type, pos token.Pos, ins ssa.Instruction) Val {
 	e.calledByContract[funcDisplayName(callee)] = true
 	env := &Env{eng: e, st: st, pkg: e.pkgOf(callee), vars: map[string]Val{}, where: "call " + funcDisplayName(callee)}
 	e.bindParams(env, callee, args)
 	for i, fv := range callee.FreeVars {
-		_ = i
-		_ = fv
+		// captured variables of a closure called by contract: current contents of the captured cells
+		if i < len(bindings) {
+			b := bindings[i]
+			var v Val
+			if b.A != nil {
+				v = st.load(b.A)
+			} else if _, isPtr := b.T.Underlying().(*types.Pointer); isPtr {
+				v = e.loadPtr(st, b)
+			} else {
+				v = b
+			}
+			v.T = deref(fv.Type())
+			env.vars[fv.Name()] = v
+		}
 	}
 	for _, g := range ct.GhostParam {
 		// ghost arguments are passed by name from the caller's ghost variables
